@@ -7,7 +7,7 @@
 namespace vh {
 static const int NLOC = 29;
 
-inline std::string val(double v) { return dyNA(v); }
+inline std::string val(double v) { return std::isfinite(v) ? dyNA(v) : std::string("NA"); }   // non-finite values (only from damaged files) are shown as undefined
 
 inline std::string observe(const Db* db)
 {
